@@ -92,6 +92,63 @@ def c15_r1(ctx):
                loc=cls.loc)
 
 
+def _class_identity_test(eq, prog):
+    """how an __eq__ decides that `other` is of the same kind: "exact" (class identity), ("isinstance", [classes]) or None"""
+    other = eq.params[1] if len(eq.params) > 1 else None
+    if other is None:
+        return None
+    exact = False
+    insts = []
+    for n in ast.walk(eq.node):
+        if isinstance(n, ast.Compare) and len(n.ops) == 1 and isinstance(n.ops[0], (ast.Is, ast.Eq)):
+            sides = sorted([norm.canon(n.left), norm.canon(n.comparators[0])])
+            if sides in (sorted(["self.__class__", "%s.__class__" % other]), sorted(["self.__class__", "type(%s)" % other]),
+                         sorted(["type(self)", "type(%s)" % other])):
+                exact = True
+        if isinstance(n, ast.Call) and norm.call_name(n) == "isinstance" and len(n.args) == 2 and norm.canon(n.args[0]) == other:
+            insts.append(n.args[1])
+    if exact:
+        return "exact"
+    if insts:
+        return ("isinstance", insts)
+    return None
+
+
+@rule("C15", "R11", "K6", "queries of different classes are never equal",
+      min_instances=10,
+      clause="Every __eq__ of a query class decides sameness of kind by class identity (self.__class__ is other.__class__, or "
+             "type(other)); isinstance() is accepted only against a class without subclasses.  Prefix('f','a'), Wildcard('f','a') "
+             "and Regex('f','a') share a base class and a class-agnostic hash: an isinstance test would make them equal and "
+             "normalize() would drop all but one as duplicates.")
+def c15_r11(ctx):
+    prog = ctx.prog
+    qbase = prog.cls("query.qcore.Query")
+    seen = set()
+    for cls in prog.subclasses(qbase):
+        eq = cls.methods.get("__eq__")
+        if eq is None or eq.qualname in seen:
+            continue
+        seen.add(eq.qualname)
+        ctx.saw(eq)
+        how = _class_identity_test(eq, prog)
+        ok = how == "exact"
+        detail = ""
+        if isinstance(how, tuple):
+            ok = True
+            for e in how[1]:
+                r = prog.resolve_in_func(eq, e)
+                k = r[1] if r is not None and r[0] == "class" else None
+                subs = prog.subclasses(k, strict=True) if k is not None else ["?"]
+                if subs:
+                    ok = False
+                    detail = "isinstance(other, %s) also accepts %s" % (norm.canon(e), ", ".join(getattr(x, "name", "?") for x in subs[:4]))
+        elif how is None:
+            detail = "no test of the other object's class"
+        ctx.ob(eq, ok, "__eq__ requires the other query to be of exactly the same class", detail=detail)
+    if len(seen) < 10:
+        raise AnalysisError("only %d query __eq__ methods found" % len(seen))
+
+
 @rule("C15", "R2", "K6", "rewrites rebuild a query with every match-relevant constructor argument",
       min_instances=20,
       clause="Every self.__class__(...) / Cls(...) in normalize, apply, with_boost, _rewrap, simplify, replace, accept, "
